@@ -30,14 +30,16 @@ class PAB(PA, PB):
     pass
 
 
-SHAPES = ("function", "lambda", "partial", "object", "method", "async-object", "bad-no-types-object", "bad-no-types-partial")
+SHAPES = ("function", "lambda", "partial", "object", "method", "async-object", "bad-no-types-object", "bad-no-types-partial", "bad-td-int", "bad-td-str")
 OPS = ("factory", "resource-td")
 
 
 def scenarios() -> list[dict]:
     out = []
     for op, shape, phase, alias, ntypes in itertools.product(OPS, SHAPES, ("prepare", "start"), ("plain", "kind/name", "kind/name>plain"), (1, 2)):
-        if op == "resource-td" and shape.startswith(("bad", "async")):
+        if op == "resource-td" and (shape.startswith(("bad-no", "async"))):
+            continue
+        if op == "factory" and shape.startswith("bad-td"):
             continue
         if alias == "kind/name>plain" and (shape not in ("function", "object") or phase != "start"):
             continue  # a plain-alias component nested below a kind/name component: its default-named registrations stay "default"
@@ -93,7 +95,7 @@ async def run_scenario(sc: dict) -> list[tuple[str, str]]:
                    "bad-no-types-partial": functools.partial(make, "partial")}[shape]
     else:
         cb = {"function": close_fn, "lambda": lambda: close_fn("lambda"), "partial": functools.partial(close_fn, "partial"), "object": Closer(),
-              "method": Closer().close}[shape]
+              "method": Closer().close, "bad-td-int": 5, "bad-td-str": "close"}[shape]  # (the last two are not callable: the call must fail cleanly)
     valid = not shape.startswith("bad")
     name = "default" if sc["alias"].startswith("kind/name") else "thing"
     value = cls("static")
@@ -176,7 +178,7 @@ async def run_scenario(sc: dict) -> list[tuple[str, str]]:
                     fails.append(("conflict", f"a valid registration ({sc}) was refused with {res[1]!r}"))
             elif not valid:
                 if res[0] == "ok":
-                    fails.append(("conflict", f"add_resource_factory() without types for a callable without annotations was accepted"))
+                    fails.append(("conflict", f"an invalid registration ({sc['op']}, {shape}) was accepted"))
                 if events:
                     fails.append(("events", f"the failing call announced {events}"))
                 for nm in {name, reg_name}:
@@ -210,7 +212,7 @@ async def run_scenario(sc: dict) -> list[tuple[str, str]]:
                 if events != exp_ev:
                     fails.append(("events", f"events {events}, expected {exp_ev}"))
             tg.cancel_scope.cancel()
-    if sc["op"] == "resource-td" and outcome.get("result", ("?",))[0] == "ok":
+    if sc["op"] == "resource-td" and outcome.get("result", ("?",))[0] == "ok" and valid:
         want = {"function": ["fn"], "lambda": ["lambda"], "partial": ["partial"], "object": ["obj"], "method": ["method"]}[shape]
         if td_ran != want:
             fails.append(("teardown", f"teardown callbacks that ran: {td_ran}, expected {want}"))
